@@ -287,6 +287,18 @@ func gen(seed int64, n int, tier string) []interface{} {
 				}
 			}
 		}
+		// a file of the unnamed package: its imports begin on the first line of the file; the first one is unused, the
+		// second is used only as the receiver of a method reference (Objects::nonNull), the third as a field type
+		if r.Intn(5) == 0 {
+			mref := javagen.Expr{K: "mref", Type: "Objects", Callee: "nonNull", Args: []javagen.Expr{}}
+			use := javagen.Expr{K: "call", RecvKind: "var", Recv: "items", Callee: "removeIf", Args: []javagen.Expr{mref}}
+			np := javagen.File{Id: "nopkg", PathKind: "main", Dirs: "", Pkg: "", Imports: []javagen.Import{
+				{Pkg: "unused.pkg", Name: "NeverUsed"}, {Pkg: "java.util", Name: "Objects"}, {Pkg: "java.util", Name: "List"}}}
+			np.Unit = javagen.Unit{Kind: "class", Name: "NoPackage", Members: []javagen.Member{
+				{Kind: "field", Name: "items", Type: "List", Mods: []string{"private"}},
+				{Kind: "method", Name: "clean", Type: "void", Mods: []string{"public"}, Body: []javagen.Stmt{{K: "expr", E: &use}}}}}
+			p.Files = append(p.Files, np)
+		}
 		out = append(out, Case{Case: fmt.Sprintf("rand-%d-%d", seed, k), Files: p.Files, Layout: p.Layout,
 			Bystander: []string{"", "", "", "enum", "anntype", "pkginfo"}[r.Intn(6)], Crlf: r.Intn(5) == 0, NoFinal: r.Intn(7) == 0})
 	}
